@@ -159,6 +159,10 @@ func wlWorkloads() map[string]*wlWorkload {
 			{"merge-1-4", false, func(s *wlState) vsrv.Resp { r := lmMerge(R, "lm", 1, 4); s.id("mutid", wlJSONField(r, "MutationID")); return r }},
 			commit(R), newver(R, A),
 			{"merge-2-3", false, func(s *wlState) vsrv.Resp { r := lmMerge(A, "lm", 2, 3); s.id("mutid", wlJSONField(r, "MutationID")); return r }},
+			// reads of the version's mutation log while the server holds it open for appending (body history, mutation list):
+			// the appends that follow must land behind what is already logged
+			{"history-read", true, func(*wlState) vsrv.Resp { return vsrv.Get("node/" + A + "/lm/history/2/" + R + "/" + A) }},
+			{"mutations-read", true, func(*wlState) vsrv.Resp { return vsrv.Get("node/" + A + "/lm/mutations") }},
 			{"cleave-1-4", false, func(s *wlState) vsrv.Resp {
 				l, r := lmCleave(A, "lm", 1, 4)
 				s.id("label", l)
